@@ -6,50 +6,704 @@ namespace BloomVerif
 def MDWF (m : DataBlockMetadata) : Prop :=
   ∀ k mm, lookupMM k m.MinMaxIndexes = some mm → mm.Min ≤ mm.Max ∧ InI64 mm.Min ∧ InI64 mm.Max
 
+-- ---------------------------------------------------------------- mmInsert
+
+/-- Full characterisation of `lookup` after `mmInsert`. -/
+theorem lookup_mmInsert (k : String) (lo hi : Int) (acc : List (String × MinMaxIndex)) (k' : String) :
+    List.lookup k' (mmInsert k lo hi acc) =
+      if k' = k then
+        some (match List.lookup k acc with
+              | none => (⟨lo, hi⟩ : MinMaxIndex)
+              | some mm => updateMinMax mm lo hi)
+      else List.lookup k' acc := by
+  induction acc with
+  | nil =>
+    by_cases h : k' = k
+    · subst h; simp [mmInsert]
+    · have : (k' == k) = false := beq_eq_false_iff_ne.mpr h
+      simp [mmInsert, List.lookup_cons, h, this]
+  | cons p r ih =>
+    obtain ⟨a, m⟩ := p
+    by_cases ha : a = k
+    · subst ha
+      by_cases h : k' = a
+      · subst h; simp [mmInsert]
+      · have : (k' == a) = false := beq_eq_false_iff_ne.mpr h
+        simp [mmInsert, List.lookup_cons, h, this]
+    · by_cases h : k' = k
+      · subst h
+        have : (k' == a) = false := beq_eq_false_iff_ne.mpr (Ne.symm ha)
+        simp [mmInsert, List.lookup_cons, ha, this, ih]
+      · by_cases h2 : k' = a
+        · subst h2; simp [mmInsert, ha]
+        · have : (k' == a) = false := beq_eq_false_iff_ne.mpr h2
+          simp [mmInsert, List.lookup_cons, ha, this, ih, h]
+
+/-- `b` lists every key of `a` with a range at least as wide. -/
+def MMLe (a b : List (String × MinMaxIndex)) : Prop :=
+  ∀ k mm, a.lookup k = some mm → ∃ mm', b.lookup k = some mm' ∧ mm'.Min ≤ mm.Min ∧ mm.Max ≤ mm'.Max
+
+theorem MMLe.refl (a : List (String × MinMaxIndex)) : MMLe a a :=
+  fun _ mm h => ⟨mm, h, Int.le_refl _, Int.le_refl _⟩
+
+theorem MMLe.trans {a b c : List (String × MinMaxIndex)} (h1 : MMLe a b) (h2 : MMLe b c) : MMLe a c := by
+  intro k mm h
+  obtain ⟨mm1, e1, l1, u1⟩ := h1 k mm h
+  obtain ⟨mm2, e2, l2, u2⟩ := h2 k mm1 e1
+  exact ⟨mm2, e2, Int.le_trans l2 l1, Int.le_trans u1 u2⟩
+
+/-- (a) after inserting, the key is present with a range containing the inserted one. -/
+theorem mmInsert_self (k : String) (lo hi : Int) (acc : List (String × MinMaxIndex)) :
+    ∃ mm, List.lookup k (mmInsert k lo hi acc) = some mm ∧ mm.Min ≤ lo ∧ hi ≤ mm.Max := by
+  rw [lookup_mmInsert, if_pos rfl]
+  cases List.lookup k acc with
+  | none => exact ⟨_, rfl, Int.le_refl _, Int.le_refl _⟩
+  | some mm =>
+    have := C04.update_covers mm lo hi
+    exact ⟨_, rfl, this.2.2.1, this.2.2.2⟩
+
+/-- (b) inserting only widens what is there. -/
+theorem mmInsert_le (k : String) (lo hi : Int) (acc : List (String × MinMaxIndex)) :
+    MMLe acc (mmInsert k lo hi acc) := by
+  intro k' mm0 h
+  rw [lookup_mmInsert]
+  by_cases hk : k' = k
+  · subst hk
+    rw [if_pos rfl, h]
+    have := C04.update_covers mm0 lo hi
+    exact ⟨_, rfl, this.1, this.2.1⟩
+  · rw [if_neg hk]; exact ⟨mm0, h, Int.le_refl _, Int.le_refl _⟩
+
+theorem mmInsert_isSome (k : String) (lo hi : Int) (acc : List (String × MinMaxIndex)) (k' : String) :
+    (List.lookup k' (mmInsert k lo hi acc)).isSome = true ↔ k' = k ∨ (List.lookup k' acc).isSome = true := by
+  rw [lookup_mmInsert]
+  by_cases hk : k' = k
+  · simp [hk]
+  · simp [hk]
+
+theorem foldl_MMLe {α : Type} (f : List (String × MinMaxIndex) → α → List (String × MinMaxIndex))
+    (hf : ∀ acc x, MMLe acc (f acc x)) (l : List α) (acc : List (String × MinMaxIndex)) :
+    MMLe acc (l.foldl f acc) := by
+  induction l generalizing acc with
+  | nil => exact MMLe.refl _
+  | cons x t ih => exact MMLe.trans (hf acc x) (ih (f acc x))
+
+/-- If the step for `x` makes `k` covered (whatever the accumulator) and steps only widen, the
+    fold over a list containing `x` leaves `k` covered. -/
+theorem foldl_covers {α : Type} (f : List (String × MinMaxIndex) → α → List (String × MinMaxIndex))
+    (hf : ∀ acc x, MMLe acc (f acc x)) (k : String) (lo hi : Int) (x : α)
+    (hx : ∀ acc, ∃ mm, List.lookup k (f acc x) = some mm ∧ mm.Min ≤ lo ∧ hi ≤ mm.Max)
+    (l : List α) (hm : x ∈ l) (acc : List (String × MinMaxIndex)) :
+    ∃ mm, List.lookup k (l.foldl f acc) = some mm ∧ mm.Min ≤ lo ∧ hi ≤ mm.Max := by
+  induction l generalizing acc with
+  | nil => cases hm
+  | cons y t ih =>
+    rw [List.foldl_cons]
+    rcases List.mem_cons.mp hm with h | h
+    · subst h
+      obtain ⟨mm, e, l1, u1⟩ := hx acc
+      obtain ⟨mm', e', l2, u2⟩ := foldl_MMLe f hf t _ k mm e
+      exact ⟨mm', e', Int.le_trans l2 l1, Int.le_trans u1 u2⟩
+    · exact ih h _
+
+-- ---------------------------------------------------------------- blockMinMax
+
+/-- One row's contribution to the minmax map. -/
+def rowStep (keys : List String) (acc : List (String × MinMaxIndex)) (r : Row) : List (String × MinMaxIndex) :=
+  keys.foldl (fun acc k => match r.pre.vals k with
+    | none => acc
+    | some v => mmInsert k (toRange v).1 (toRange v).2 acc) acc
+
+theorem blockMinMax_eq (keys : List String) (rows : List Row) :
+    blockMinMax keys rows = rows.foldl (rowStep keys) [] := rfl
+
+theorem keyStep_le (r : Row) (acc : List (String × MinMaxIndex)) (k : String) :
+    MMLe acc (match r.pre.vals k with
+      | none => acc
+      | some v => mmInsert k (toRange v).1 (toRange v).2 acc) := by
+  cases r.pre.vals k with
+  | none => exact MMLe.refl _
+  | some v => exact mmInsert_le _ _ _ _
+
+theorem rowStep_le (keys : List String) (acc : List (String × MinMaxIndex)) (r : Row) :
+    MMLe acc (rowStep keys acc r) :=
+  foldl_MMLe _ (fun acc k => keyStep_le r acc k) keys acc
+
+theorem rowStep_covers (keys : List String) (r : Row) (k : String) (v : NumVal) (hk : k ∈ keys)
+    (hv : r.pre.vals k = some v) (acc : List (String × MinMaxIndex)) :
+    ∃ mm, List.lookup k (rowStep keys acc r) = some mm ∧ mm.Min ≤ (toRange v).1 ∧ (toRange v).2 ≤ mm.Max := by
+  refine foldl_covers _ (fun acc k => keyStep_le r acc k) k _ _ k ?_ keys hk acc
+  intro acc
+  simp only [hv]
+  exact mmInsert_self _ _ _ _
+
+theorem blockMinMax_covers (keys : List String) (rows : List Row) (r : Row) (hr : r ∈ rows)
+    (k : String) (v : NumVal) (hk : k ∈ keys) (hv : r.pre.vals k = some v) :
+    ∃ mm, List.lookup k (blockMinMax keys rows) = some mm ∧
+      mm.Min ≤ (toRange v).1 ∧ (toRange v).2 ≤ mm.Max :=
+  foldl_covers (rowStep keys) (rowStep_le keys) k _ _ r (rowStep_covers keys r k v hk hv) rows hr []
+
+-- ---------------------------------------------------------------- filters
+
+theorem filtCoversList_build (build : List Str → (Str → Bool)) (hb : SoundBuild build)
+    (l l' : List Str) (h : ∀ x ∈ l', x ∈ l) : FiltCoversList (some (build l)) l' := by
+  intro g hg x hx
+  cases hg
+  exact hb l x (h x hx)
+
+theorem buildFilt_covers (build : List Str → (Str → Bool)) (hb : SoundBuild build)
+    (ens : List Entries) (en : Entries) (h : en ∈ ens) :
+    FiltCovers (buildFilt build (unionEntries ens)) en := by
+  refine ⟨?_, ?_, ?_⟩
+  · exact filtCoversList_build build hb _ _ (fun x hx => List.mem_flatMap.mpr ⟨en, h, hx⟩)
+  · exact filtCoversList_build build hb _ _ (fun x hx => List.mem_flatMap.mpr ⟨en, h, hx⟩)
+  · exact filtCoversList_build build hb _ _ (fun x hx => List.mem_flatMap.mpr ⟨en, h, hx⟩)
+
 theorem mkBlock_WF_aux (s : Sem) (build : List Str → (Str → Bool)) (hb : SoundBuild build)
     (keys : List String) (pid : String) (rows : List Row)
     (hp : ∀ r ∈ rows, r.pre.pid = pid)
     (hk : ∀ r ∈ rows, ∀ f v, r.pre.vals f = some v → f ∈ keys) :
     BlockWF s (mkBlock s build keys pid rows) := by
-  sorry
+  intro r hr
+  have hr' : r ∈ rows := hr
+  refine ⟨⟨(hp r hr').symm, ?_⟩, ?_⟩
+  · intro f v hv
+    exact blockMinMax_covers keys rows r hr' f v (hk r hr' f v hv) hv
+  · exact buildFilt_covers build hb _ _ (List.mem_map.mpr ⟨r, hr', rfl⟩)
 
 theorem flush_WF_aux (s : Sem) (build : List Str → (Str → Bool)) (hb : SoundBuild build)
     (keys : List String) (parts : List (String × List Row))
     (hp : ∀ p ∈ parts, ∀ r ∈ p.2, r.pre.pid = p.1)
     (hk : ∀ p ∈ parts, ∀ r ∈ p.2, ∀ f v, r.pre.vals f = some v → f ∈ keys) :
     FileWF s (flushFile s build keys parts) := by
-  sorry
+  intro b hbm
+  obtain ⟨p, hpm, rfl⟩ := List.mem_map.mp hbm
+  refine ⟨mkBlock_WF_aux s build hb keys p.1 p.2 (hp p hpm) (hk p hpm), ?_⟩
+  intro r hr
+  have hr' : r ∈ p.2 := hr
+  exact buildFilt_covers build hb _ _
+    (List.mem_flatMap.mpr ⟨p, hpm, List.mem_map.mpr ⟨r, hr', rfl⟩⟩)
+
+theorem rowStep_isSome (keys : List String) (r : Row) (k : String) (acc : List (String × MinMaxIndex)) :
+    (List.lookup k (rowStep keys acc r)).isSome = true ↔
+      (k ∈ keys ∧ (r.pre.vals k).isSome = true) ∨ (List.lookup k acc).isSome = true := by
+  unfold rowStep
+  induction keys generalizing acc with
+  | nil => simp
+  | cons a t ih =>
+    rw [List.foldl_cons, ih]
+    cases hv : r.pre.vals a with
+    | none =>
+      simp only [List.mem_cons]
+      constructor
+      · rintro (⟨h1, h2⟩ | h)
+        · exact Or.inl ⟨Or.inr h1, h2⟩
+        · exact Or.inr h
+      · rintro (⟨h1 | h1, h2⟩ | h)
+        · subst h1; rw [hv] at h2; cases h2
+        · exact Or.inl ⟨h1, h2⟩
+        · exact Or.inr h
+    | some v =>
+      simp only [mmInsert_isSome, List.mem_cons]
+      constructor
+      · rintro (⟨h1, h2⟩ | h | h)
+        · exact Or.inl ⟨Or.inr h1, h2⟩
+        · subst h; exact Or.inl ⟨Or.inl rfl, by rw [hv]; rfl⟩
+        · exact Or.inr h
+      · rintro (⟨h1 | h1, h2⟩ | h)
+        · exact Or.inr (Or.inl h1)
+        · exact Or.inl ⟨h1, h2⟩
+        · exact Or.inr (Or.inr h)
+
+theorem foldRows_isSome (keys : List String) (rows : List Row) (k : String) (acc : List (String × MinMaxIndex)) :
+    (List.lookup k (rows.foldl (rowStep keys) acc)).isSome = true ↔
+      (k ∈ keys ∧ ∃ r ∈ rows, (r.pre.vals k).isSome = true) ∨ (List.lookup k acc).isSome = true := by
+  induction rows generalizing acc with
+  | nil => simp
+  | cons a t ih =>
+    rw [List.foldl_cons, ih, rowStep_isSome]
+    constructor
+    · rintro (⟨h1, r, hr, h2⟩ | ⟨h1, h2⟩ | h)
+      · exact Or.inl ⟨h1, r, List.mem_cons_of_mem _ hr, h2⟩
+      · exact Or.inl ⟨h1, a, List.mem_cons_self, h2⟩
+      · exact Or.inr h
+    · rintro (⟨h1, r, hr, h2⟩ | h)
+      · rcases List.mem_cons.mp hr with e | e
+        · subst e; exact Or.inr (Or.inl ⟨h1, h2⟩)
+        · exact Or.inl ⟨h1, r, e, h2⟩
+      · exact Or.inr (Or.inr h)
 
 theorem minmax_keys_exact_aux (keys : List String) (rows : List Row) (k : String) :
     ((blockMinMax keys rows).lookup k).isSome = true ↔
       (k ∈ keys ∧ ∃ r ∈ rows, (r.pre.vals k).isSome = true) := by
-  sorry
+  rw [blockMinMax_eq, foldRows_isSome]
+  simp
+
+-- ---------------------------------------------------------------- mergeMM / mergeGroup
+
+theorem assoc_lookup_mem {α : Type} (k : String) (l : List (String × α)) (v : α)
+    (h : List.lookup k l = some v) : (k, v) ∈ l := by
+  induction l with
+  | nil => cases h
+  | cons p t ih =>
+    obtain ⟨a, m⟩ := p
+    rw [List.lookup_cons] at h
+    cases hb : (k == a) with
+    | true =>
+      rw [hb] at h
+      have : k = a := eq_of_beq hb
+      cases h; subst this; exact List.mem_cons_self
+    | false =>
+      rw [hb] at h
+      exact List.mem_cons_of_mem _ (ih h)
+
+theorem mergeMM_le (a b : List (String × MinMaxIndex)) : MMLe a (mergeMM a b) :=
+  foldl_MMLe (fun acc (p : String × MinMaxIndex) => mmInsert p.1 p.2.Min p.2.Max acc)
+    (fun acc p => mmInsert_le p.1 p.2.Min p.2.Max acc) b a
+
+theorem mergeMM_covers (a b : List (String × MinMaxIndex)) (k : String) (mm : MinMaxIndex)
+    (h : (k, mm) ∈ b) :
+    ∃ mm', List.lookup k (mergeMM a b) = some mm' ∧ mm'.Min ≤ mm.Min ∧ mm.Max ≤ mm'.Max :=
+  foldl_covers (fun acc (p : String × MinMaxIndex) => mmInsert p.1 p.2.Min p.2.Max acc)
+    (fun acc p => mmInsert_le p.1 p.2.Min p.2.Max acc) k mm.Min mm.Max (k, mm)
+    (fun acc => mmInsert_self k mm.Min mm.Max acc) b h a
+
+/-- The minmax map of a merged block. -/
+def groupMM (b : Block) (rest : List Block) : List (String × MinMaxIndex) :=
+  rest.foldl (fun acc x => mergeMM acc x.md.MinMaxIndexes) b.md.MinMaxIndexes
+
+theorem groupMM_le (b : Block) (rest : List Block) (x : Block) (hx : x ∈ b :: rest) :
+    MMLe x.md.MinMaxIndexes (groupMM b rest) := by
+  rcases List.mem_cons.mp hx with h | h
+  · subst h
+    exact foldl_MMLe _ (fun acc y => mergeMM_le acc y.md.MinMaxIndexes) rest _
+  · intro k mm hl
+    exact foldl_covers _ (fun acc y => mergeMM_le acc y.md.MinMaxIndexes) k mm.Min mm.Max x
+      (fun acc => mergeMM_covers acc _ k mm (assoc_lookup_mem k _ mm hl)) rest h _
+
+theorem mergeGroup_multi (s : Sem) (build : List Str → (Str → Bool)) (b b2 : Block) (rest : List Block) :
+    mergeGroup s build (b :: b2 :: rest) =
+      some { md := { PartitionID := b.md.PartitionID,
+                     Rows := ((b :: b2 :: rest).flatMap (·.rows)).length,
+                     MinMaxIndexes := groupMM b (b2 :: rest) },
+             rows := (b :: b2 :: rest).flatMap (·.rows),
+             filt := buildFilt build (unionEntries (((b :: b2 :: rest).flatMap (·.rows)).map
+                       (fun r => rowEntries s.tok r.json))) } := rfl
+
+theorem mergeGroup_isSome (s : Sem) (build : List Str → (Str → Bool)) (g : List Block) (hg : g ≠ []) :
+    ∃ b', mergeGroup s build g = some b' := by
+  cases g with
+  | nil => exact absurd rfl hg
+  | cons b t =>
+    cases t with
+    | nil => exact ⟨b, rfl⟩
+    | cons b2 rest => exact ⟨_, mergeGroup_multi s build b b2 rest⟩
+
+theorem mergeGroup_rows (s : Sem) (build : List Str → (Str → Bool)) (g : List Block) (b' : Block)
+    (h : mergeGroup s build g = some b') : b'.rows = g.flatMap (·.rows) := by
+  cases g with
+  | nil => cases h
+  | cons b t =>
+    cases t with
+    | nil => cases h; simp
+    | cons b2 rest => rw [mergeGroup_multi] at h; cases h; rfl
+
+theorem mergeGroup_pid (s : Sem) (build : List Str → (Str → Bool)) (g : List Block) (b' : Block)
+    (h : mergeGroup s build g = some b') : ∃ b0 ∈ g, b'.md.PartitionID = b0.md.PartitionID := by
+  cases g with
+  | nil => cases h
+  | cons b t =>
+    cases t with
+    | nil => cases h; exact ⟨_, List.mem_cons_self, rfl⟩
+    | cons b2 rest => rw [mergeGroup_multi] at h; cases h; exact ⟨b, List.mem_cons_self, rfl⟩
+
+theorem mergeGroup_le (s : Sem) (build : List Str → (Str → Bool)) (g : List Block) (b' : Block)
+    (h : mergeGroup s build g = some b') :
+    ∀ x ∈ g, MMLe x.md.MinMaxIndexes b'.md.MinMaxIndexes := by
+  cases g with
+  | nil => cases h
+  | cons b t =>
+    cases t with
+    | nil =>
+      cases h; intro x hx
+      rw [List.mem_singleton] at hx; subst hx; exact MMLe.refl _
+    | cons b2 rest =>
+      rw [mergeGroup_multi] at h; cases h
+      intro x hx; exact groupMM_le b (b2 :: rest) x hx
+
+/-- The metadata of the merged block covers every row any block of the group covered. -/
+theorem mergeGroup_covers (s : Sem) (build : List Str → (Str → Bool)) (g : List Block) (b' : Block)
+    (hg : ValidGroup g) (h : mergeGroup s build g = some b') (x : Block) (hx : x ∈ g) (r : RowPre)
+    (hc : Covers x.md r) : Covers b'.md r := by
+  obtain ⟨b0, hb0, hp⟩ := mergeGroup_pid s build g b' h
+  refine ⟨?_, ?_⟩
+  · rw [hp, (hg.2 b0 hb0 x hx).1]; exact hc.1
+  · intro f v hv
+    obtain ⟨mm, hl, h1, h2⟩ := hc.2 f v hv
+    obtain ⟨mm', hl', h1', h2'⟩ := mergeGroup_le s build g b' h x hx f mm hl
+    exact ⟨mm', hl', Int.le_trans h1' h1, Int.le_trans h2 h2'⟩
 
 theorem mergeGroup_WF_aux (s : Sem) (build : List Str → (Str → Bool)) (hb : SoundBuild build)
     (g : List Block) (b' : Block) (hg : ValidGroup g) (hwf : ∀ b ∈ g, BlockWF s b)
     (h : mergeGroup s build g = some b') : BlockWF s b' := by
-  sorry
+  intro r hr
+  rw [mergeGroup_rows s build g b' h] at hr
+  obtain ⟨x, hx, hrx⟩ := List.mem_flatMap.mp hr
+  refine ⟨mergeGroup_covers s build g b' hg h x hx r.pre (hwf x hx r hrx).1, ?_⟩
+  cases g with
+  | nil => cases h
+  | cons b t =>
+    cases t with
+    | nil =>
+      cases h
+      rw [List.mem_singleton] at hx; subst hx
+      exact (hwf x List.mem_cons_self r hrx).2
+    | cons b2 rest =>
+      rw [mergeGroup_multi] at h; cases h
+      exact buildFilt_covers build hb _ _ (List.mem_map.mpr ⟨r, hr, rfl⟩)
 
 theorem merge_WF_aux (s : Sem) (build : List Str → (Str → Bool)) (hb : SoundBuild build)
     (groups : List (List Block)) (hg : ∀ g ∈ groups, ValidGroup g)
     (hwf : ∀ g ∈ groups, ∀ b ∈ g, BlockWF s b) :
     FileWF s (mergeFile s build groups) := by
-  sorry
+  intro b' hb'
+  obtain ⟨g, hgm, hmg⟩ := List.mem_filterMap.mp hb'
+  refine ⟨mergeGroup_WF_aux s build hb g b' (hg g hgm) (hwf g hgm) hmg, ?_⟩
+  intro r hr
+  rw [mergeGroup_rows s build g b' hmg] at hr
+  obtain ⟨x, hx, hrx⟩ := List.mem_flatMap.mp hr
+  refine buildFilt_covers build hb _ _ (List.mem_flatMap.mpr ⟨x, ?_, List.mem_map.mpr ⟨r, hrx, rfl⟩⟩)
+  exact List.mem_flatMap.mpr ⟨g, hgm, hx⟩
 
 theorem merge_rows_preserved_aux (s : Sem) (build : List Str → (Str → Bool))
     (groups : List (List Block)) (hg : ∀ g ∈ groups, g ≠ []) :
     allRows [mergeFile s build groups] = (groups.flatMap id).flatMap (·.rows) := by
-  sorry
+  have key : (groups.filterMap (mergeGroup s build)).flatMap (·.rows) =
+      (groups.flatMap id).flatMap (·.rows) := by
+    induction groups with
+    | nil => rfl
+    | cons g gs ih =>
+      obtain ⟨b', hb'⟩ := mergeGroup_isSome s build g (hg g List.mem_cons_self)
+      rw [List.filterMap_cons, hb']
+      simp only [List.flatMap_cons, List.flatMap_append, id]
+      rw [ih (fun g' h' => hg g' (List.mem_cons_of_mem _ h')), mergeGroup_rows s build g b' hb']
+  simp only [allRows, List.flatMap_cons, List.flatMap_nil, List.append_nil]
+  exact key
+
+-- ---------------------------------------------------------------- query answers after a merge
+
+/-- Every range the map yields is within int64. -/
+def MMIn (a : List (String × MinMaxIndex)) : Prop :=
+  ∀ k mm, a.lookup k = some mm → InI64 mm.Min ∧ InI64 mm.Max
+
+theorem updateMinMax_in (e : MinMaxIndex) (lo hi : Int) (he : InI64 e.Min ∧ InI64 e.Max)
+    (hlo : InI64 lo) (hhi : InI64 hi) :
+    InI64 (updateMinMax e lo hi).Min ∧ InI64 (updateMinMax e lo hi).Max := by
+  unfold updateMinMax
+  constructor
+  · show InI64 (if lo < e.Min then lo else e.Min)
+    split
+    · exact hlo
+    · exact he.1
+  · show InI64 (if hi > e.Max then hi else e.Max)
+    split
+    · exact hhi
+    · exact he.2
+
+theorem mmInsert_in (k : String) (lo hi : Int) (acc : List (String × MinMaxIndex))
+    (ha : MMIn acc) (hlo : InI64 lo) (hhi : InI64 hi) : MMIn (mmInsert k lo hi acc) := by
+  intro k' mm h
+  rw [lookup_mmInsert] at h
+  by_cases hk : k' = k
+  · rw [if_pos hk] at h
+    cases hl : List.lookup k acc with
+    | none => rw [hl] at h; cases h; exact ⟨hlo, hhi⟩
+    | some m0 => rw [hl] at h; cases h; exact updateMinMax_in m0 lo hi (ha k m0 hl) hlo hhi
+  · rw [if_neg hk] at h; exact ha k' mm h
+
+theorem mergeMM_in (a b : List (String × MinMaxIndex)) (ha : MMIn a)
+    (hb : ∀ p ∈ b, InI64 p.2.Min ∧ InI64 p.2.Max) : MMIn (mergeMM a b) := by
+  unfold mergeMM
+  induction b generalizing a with
+  | nil => exact ha
+  | cons p t ih =>
+    rw [List.foldl_cons]
+    exact ih _ (mmInsert_in _ _ _ _ ha (hb p List.mem_cons_self).1 (hb p List.mem_cons_self).2)
+      (fun p' hp' => hb p' (List.mem_cons_of_mem _ hp'))
+
+theorem groupMM_in (b : Block) (rest : List Block) (hb : MMIn b.md.MinMaxIndexes)
+    (hr : ∀ x ∈ rest, ∀ p ∈ x.md.MinMaxIndexes, InI64 p.2.Min ∧ InI64 p.2.Max) :
+    MMIn (groupMM b rest) := by
+  unfold groupMM
+  generalize b.md.MinMaxIndexes = acc at hb
+  induction rest generalizing acc with
+  | nil => exact hb
+  | cons x t ih =>
+    rw [List.foldl_cons]
+    exact ih (fun y hy => hr y (List.mem_cons_of_mem _ hy)) _
+      (mergeMM_in _ _ hb (hr x List.mem_cons_self))
+
+theorem MDWF.mmIn {m : DataBlockMetadata} (h : MDWF m) : MMIn m.MinMaxIndexes :=
+  fun k mm hl => (h k mm hl).2
+
+theorem mergeGroup_in (s : Sem) (build : List Str → (Str → Bool)) (g : List Block) (b' : Block)
+    (h : mergeGroup s build g = some b') (hmd : ∀ x ∈ g, MDWF x.md)
+    (hpairs : ∀ x ∈ g, ∀ p ∈ x.md.MinMaxIndexes, InI64 p.2.Min ∧ InI64 p.2.Max) :
+    MMIn b'.md.MinMaxIndexes := by
+  cases g with
+  | nil => cases h
+  | cons b t =>
+    cases t with
+    | nil => cases h; exact (hmd _ List.mem_cons_self).mmIn
+    | cons b2 rest =>
+      rw [mergeGroup_multi] at h; cases h
+      exact groupMM_in b (b2 :: rest) (hmd b List.mem_cons_self).mmIn
+        (fun x hx => hpairs x (List.mem_cons_of_mem _ hx))
+
+/-- With unique keys (a Go map), `MDWF` already bounds every stored pair. -/
+theorem pairs_in_of_nodup (m : DataBlockMetadata) (hn : (m.MinMaxIndexes.map Prod.fst).Nodup)
+    (h : MDWF m) : ∀ p ∈ m.MinMaxIndexes, InI64 p.2.Min ∧ InI64 p.2.Max := by
+  unfold MDWF lookupMM at h
+  generalize m.MinMaxIndexes = l at hn h
+  induction l with
+  | nil => intro p hp; cases hp
+  | cons q t ih =>
+    obtain ⟨a, mq⟩ := q
+    rw [List.map_cons, List.nodup_cons] at hn
+    intro p hp
+    rcases List.mem_cons.mp hp with e | e
+    · subst e
+      exact (h a mq (by simp)).2
+    · refine ih hn.2 ?_ p e
+      intro k mm hl
+      apply h k mm
+      have hne : (k == a) = false := by
+        apply beq_eq_false_iff_ne.mpr
+        intro e'; subst e'
+        exact hn.1 (List.mem_map.mpr ⟨(k, mm), assoc_lookup_mem k t mm hl, rfl⟩)
+      rw [List.lookup_cons, hne]; exact hl
+
+
+/-- Same partition ID, every key still present with a wider range: the prefilter leaf verdict can
+    only go from false to true, provided widening never flips the minmax leaf (`hmm`). -/
+theorem evalPreCond_mono (m m' : DataBlockMetadata) (hp : m.PartitionID = m'.PartitionID)
+    (hle : MMLe m.MinMaxIndexes m'.MinMaxIndexes) (c : PreCond)
+    (hmm : ∀ nc mm mm', c.MinMaxCondition = some nc →
+      lookupMM c.MinMaxFieldName m.MinMaxIndexes = some mm →
+      lookupMM c.MinMaxFieldName m'.MinMaxIndexes = some mm' →
+      mm'.Min ≤ mm.Min → mm.Max ≤ mm'.Max → evalMinMax mm nc = true → evalMinMax mm' nc = true)
+    (h : evalPreCond m c = true) : evalPreCond m' c = true := by
+  unfold evalPreCond at h ⊢
+  rw [← hp]
+  by_cases h1 : c.ConditionType = "PARTITION"
+  · rw [if_pos h1] at h ⊢; exact h
+  · rw [if_neg h1] at h ⊢
+    by_cases h2 : c.ConditionType = "MINMAX"
+    · rw [if_pos h2] at h ⊢
+      cases hnc : c.MinMaxCondition with
+      | none => rfl
+      | some nc =>
+        rw [hnc] at h
+        cases hl : lookupMM c.MinMaxFieldName m.MinMaxIndexes with
+        | none => rw [hl] at h; cases h
+        | some mm =>
+          rw [hl] at h
+          obtain ⟨mm', hl', l1, u1⟩ := hle _ mm hl
+          have hl'' : lookupMM c.MinMaxFieldName m'.MinMaxIndexes = some mm' := hl'
+          simp only [hl'']
+          exact hmm nc mm mm' hnc hl hl'' l1 u1 h
+    · rw [if_neg h2] at h; cases h
+
+/-- Widening a well-formed range never flips the minmax leaf when the *operands* are int64, even
+    if the widened range is not (variant of `C04.evalMinMax_mono`). -/
+theorem evalMinMax_mono_wf (mm mm' : MinMaxIndex) (c : NumericCondition) (hc : c.WF)
+    (hI : InI64 mm.Min ∧ InI64 mm.Max)
+    (hle : mm.Min ≤ mm.Max) (h1 : mm'.Min ≤ mm.Min) (h2 : mm.Max ≤ mm'.Max)
+    (h : evalMinMax mm c = true) : evalMinMax mm' c = true := by
+  obtain ⟨hV, hMin, hMax, _⟩ := hc
+  unfold evalMinMax at *
+  unfold InI64 at hI hV hMin hMax
+  obtain ⟨hI1, hI2⟩ := hI
+  dsimp only at *
+  cases hop : parseOp c.Operator with
+  | none => simp [hop] at h
+  | some op =>
+    simp only [hop] at h ⊢
+    cases op <;> simp only [Bool.and_eq_true, Bool.or_eq_true, decide_eq_true_eq, List.any_eq_true] at h ⊢
+    case isIn =>
+      obtain ⟨x, hx, a, b⟩ := h
+      exact ⟨x, hx, by omega, by omega⟩
+    all_goals i64omega
+
+/-- Common part of the two superset theorems: once the merged block is known to pass the
+    prefilter, the row comes back. -/
+theorem merge_query_superset_core (s : Sem) (build : List Str → (Str → Bool)) (hb : SoundBuild build)
+    (reOK : Str → Bool) (groups : List (List Block)) (q : Query)
+    (hg : ∀ g ∈ groups, ValidGroup g) (hwf : ∀ g ∈ groups, ∀ b ∈ g, BlockWF s b)
+    (hv : q.Valid reOK)
+    (g : List Block) (b : Block) (r : Row) (hgm : g ∈ groups) (hbm : b ∈ g) (hr : r ∈ b.rows)
+    (hpre : evalPre b.md q.pre = true) (hm : rowMatches s q r = true)
+    (P : PreCond → Prop) (hall : Expr.ForallOpt P q.pre)
+    (hleaf : ∀ b', mergeGroup s build g = some b' → b.md.PartitionID = b'.md.PartitionID →
+      MMLe b.md.MinMaxIndexes b'.md.MinMaxIndexes →
+      ∀ c, P c → evalPreCond b.md c = true → evalPreCond b'.md c = true) :
+    r ∈ query s [mergeFile s build groups] q := by
+  obtain ⟨b', hb'⟩ := mergeGroup_isSome s build g (hg g hgm).1
+  have hrb' : r ∈ b'.rows := by
+    rw [mergeGroup_rows s build g b' hb']; exact List.mem_flatMap.mpr ⟨b, hbm, hr⟩
+  have hmem : b' ∈ (mergeFile s build groups).blocks := List.mem_filterMap.mpr ⟨g, hgm, hb'⟩
+  have hpre' : evalPre b'.md q.pre = true := by
+    obtain ⟨b0, hb0, hp0⟩ := mergeGroup_pid s build g b' hb'
+    have hpid : b.md.PartitionID = b'.md.PartitionID := by
+      rw [hp0]; exact ((hg g hgm).2 b hbm b0 hb0).1
+    exact Expr.evalOpt_mono (evalPreCond b.md) (evalPreCond b'.md) P
+      (fun c hP hc => hleaf b' hb' hpid (mergeGroup_le s build g b' hb' b hbm) c hP hc) q.pre hall hpre
+  have hfw := merge_WF_aux s build hb groups hg hwf b' hmem
+  have hen := match_entries s reOK q r hv hm
+  have hff : evalFilt (mergeFile s build groups).filt q.prune = true :=
+    filt_ge_entries _ _ _ (hfw.2 r hrb') hen
+  have hbf : evalFilt b'.filt q.prune = true :=
+    filt_ge_entries _ _ _ (hfw.1 r hrb').2 hen
+  have hkept : b' ∈ keptBlocks q (mergeFile s build groups) :=
+    List.mem_filter.mpr ⟨hmem, hpre'⟩
+  have hne : (keptBlocks q (mergeFile s build groups)).isEmpty = false := by
+    cases hk : keptBlocks q (mergeFile s build groups) with
+    | nil => rw [hk] at hkept; cases hkept
+    | cons _ _ => rfl
+  unfold query
+  rw [List.flatMap_cons, List.flatMap_nil, List.append_nil]
+  unfold queryFile
+  simp only [hne, hff, Bool.false_eq_true, if_false, Bool.not_true]
+  refine List.mem_flatMap.mpr ⟨b', hkept, ?_⟩
+  simp only [hbf, Bool.not_true, Bool.false_eq_true, if_false]
+  exact List.mem_filter.mpr ⟨hrb', hm⟩
 
 /-- A row that was in the pre-merge answer of a prefiltered query (its source block satisfied the
-    prefilter, and the row matches) is in the post-merge answer. -/
+    prefilter, and the row matches) is in the post-merge answer.
+
+    STATEMENT CHANGE: `hpairs` is new. `MDWF` only constrains the binding `lookup` finds; `mergeMM`
+    folds *every* pair of the later blocks' association lists, shadowed duplicates included, so a
+    shadowed out-of-int64 pair could push the merged range beyond int64 and un-saturate it
+    (`MergeCE.original_statement_false` below). `hpairs` follows from `MDWF` when keys are unique
+    (`pairs_in_of_nodup`). -/
 theorem merge_query_superset_aux (s : Sem) (build : List Str → (Str → Bool)) (hb : SoundBuild build)
     (reOK : Str → Bool) (groups : List (List Block)) (q : Query)
     (hg : ∀ g ∈ groups, ValidGroup g) (hwf : ∀ g ∈ groups, ∀ b ∈ g, BlockWF s b)
-    (hmd : ∀ g ∈ groups, ∀ b ∈ g, MDWF b.md) (hv : q.Valid reOK)
+    (hmd : ∀ g ∈ groups, ∀ b ∈ g, MDWF b.md)
+    (hpairs : ∀ g ∈ groups, ∀ b ∈ g, ∀ p ∈ b.md.MinMaxIndexes, InI64 p.2.Min ∧ InI64 p.2.Max)
+    (hv : q.Valid reOK)
     (g : List Block) (b : Block) (r : Row) (hgm : g ∈ groups) (hbm : b ∈ g) (hr : r ∈ b.rows)
     (hpre : evalPre b.md q.pre = true) (hm : rowMatches s q r = true) :
     r ∈ query s [mergeFile s build groups] q := by
-  sorry
+  have hall : Expr.ForallOpt (fun _ : PreCond => True) q.pre := by
+    cases q.pre with
+    | none => trivial
+    | some e => exact forall_true e
+  refine merge_query_superset_core s build hb reOK groups q hg hwf hv g b r hgm hbm hr hpre hm
+    (fun _ => True) hall ?_
+  intro b' hb' hpid hle c _ hc
+  refine evalPreCond_mono b.md b'.md hpid hle c ?_ hc
+  intro nc mm mm' _ hl hl' l1 u1 h
+  obtain ⟨o, i1, i2⟩ := hmd g hgm b hbm _ mm hl
+  exact C04.evalMinMax_mono mm mm' nc ⟨i1, i2⟩
+    (mergeGroup_in s build g b' hb' (hmd g hgm) (hpairs g hgm) _ mm' hl') o l1 u1 h
+
+/-- Alternative to `merge_query_superset_aux`: instead of bounding every stored pair (`hpairs`),
+    assume the query's numeric operands are int64 (`PreCond.WF`, as in C04). -/
+theorem merge_query_superset_aux_wfq (s : Sem) (build : List Str → (Str → Bool)) (hb : SoundBuild build)
+    (reOK : Str → Bool) (groups : List (List Block)) (q : Query)
+    (hg : ∀ g ∈ groups, ValidGroup g) (hwf : ∀ g ∈ groups, ∀ b ∈ g, BlockWF s b)
+    (hmd : ∀ g ∈ groups, ∀ b ∈ g, MDWF b.md) (hq : Expr.ForallOpt PreCond.WF q.pre)
+    (hv : q.Valid reOK)
+    (g : List Block) (b : Block) (r : Row) (hgm : g ∈ groups) (hbm : b ∈ g) (hr : r ∈ b.rows)
+    (hpre : evalPre b.md q.pre = true) (hm : rowMatches s q r = true) :
+    r ∈ query s [mergeFile s build groups] q := by
+  refine merge_query_superset_core s build hb reOK groups q hg hwf hv g b r hgm hbm hr hpre hm
+    PreCond.WF hq ?_
+  intro b' _ hpid hle c hcwf hc
+  refine evalPreCond_mono b.md b'.md hpid hle c ?_ hc
+  intro nc mm mm' hnc hl _ l1 u1 h
+  obtain ⟨o, i1, i2⟩ := hmd g hgm b hbm _ mm hl
+  exact evalMinMax_mono_wf mm mm' nc (hcwf nc hnc) ⟨i1, i2⟩ o l1 u1 h
+
+-- ---------------------------------------------------------------- why `hpairs` is needed
+
+/- Counterexample to `merge_query_superset_aux` without `hpairs` (or `PreCond.WF`): block 2 has a
+    shadowed duplicate binding of "k" beyond int64, invisible to `MDWF`; merging pushes the range
+    of block 1 (saturated at `maxInt64`) to `maxInt64 + 1`, and `GT maxInt64 + 5` then prunes. -/
+namespace MergeCE
+
+def sem : Sem := { tok := fun _ => [], re := fun _ _ => true }
+def build : List Str → (Str → Bool) := fun l x => l.contains x
+def row : Row := { json := .null, pre := { pid := "p", vals := fun _ => none } }
+def b1 : Block :=
+  { md := { PartitionID := "p", Rows := 1, MinMaxIndexes := [("k", ⟨0, maxInt64⟩)] },
+    rows := [row], filt := {} }
+def b2 : Block :=
+  { md := { PartitionID := "p", Rows := 0,
+            MinMaxIndexes := [("k", ⟨0, 0⟩), ("k", ⟨0, maxInt64 + 1⟩)] },
+    rows := [], filt := {} }
+def nc : NumericCondition := { Operator := "GT", Value := maxInt64 + 5 }
+def pc : PreCond := { ConditionType := "MINMAX", MinMaxFieldName := "k", MinMaxCondition := some nc }
+def q : Query := { pre := some (Expr.mk "CONDITION" (some pc) []) }
+
+theorem filtCovers_empty (en : Entries) : FiltCovers {} en := by
+  refine ⟨?_, ?_, ?_⟩ <;> (intro g h; cases h)
+
+theorem original_statement_false :
+    ¬ (∀ (s : Sem) (build : List Str → (Str → Bool)) (_ : SoundBuild build)
+        (reOK : Str → Bool) (groups : List (List Block)) (q : Query)
+        (_ : ∀ g ∈ groups, ValidGroup g) (_ : ∀ g ∈ groups, ∀ b ∈ g, BlockWF s b)
+        (_ : ∀ g ∈ groups, ∀ b ∈ g, MDWF b.md) (_ : q.Valid reOK)
+        (g : List Block) (b : Block) (r : Row) (_ : g ∈ groups) (_ : b ∈ g) (_ : r ∈ b.rows)
+        (_ : evalPre b.md q.pre = true) (_ : rowMatches s q r = true),
+        r ∈ query s [mergeFile s build groups] q) := by
+  intro H
+  have hsb : SoundBuild build := by
+    intro l x h; simp [build, h]
+  have hmem : ∀ g ∈ [[b1, b2]], ∀ b ∈ g, b = b1 ∨ b = b2 := by
+    intro g hg b hb
+    rw [List.mem_singleton] at hg; subst hg
+    simpa using hb
+  have hg : ∀ g ∈ [[b1, b2]], ValidGroup g := by
+    intro g hgm
+    refine ⟨by rw [List.mem_singleton] at hgm; subst hgm; simp, ?_⟩
+    intro x hx y hy
+    have key : sameKeys b1.md.MinMaxIndexes b2.md.MinMaxIndexes := by
+      intro k
+      simp only [b1, b2, List.lookup_cons, List.lookup_nil]
+      cases (k == "k") <;> rfl
+    rcases hmem g hgm x hx with rfl | rfl <;> rcases hmem g hgm y hy with rfl | rfl
+    · exact ⟨rfl, fun _ => rfl⟩
+    · exact ⟨rfl, key⟩
+    · exact ⟨rfl, fun k => (key k).symm⟩
+    · exact ⟨rfl, fun _ => rfl⟩
+  have hwf : ∀ g ∈ [[b1, b2]], ∀ b ∈ g, BlockWF sem b := by
+    intro g hgm b hb r hr
+    rcases hmem g hgm b hb with rfl | rfl
+    · have : r = row := by simpa [b1] using hr
+      subst this
+      exact ⟨⟨rfl, fun f v hv => by simp [row] at hv⟩, filtCovers_empty _⟩
+    · simp [b2] at hr
+  have hmd : ∀ g ∈ [[b1, b2]], ∀ b ∈ g, MDWF b.md := by
+    intro g hgm b hb k mm hl
+    unfold lookupMM at hl
+    rcases hmem g hgm b hb with rfl | rfl
+    · simp only [b1, List.lookup_cons, List.lookup_nil] at hl
+      cases hk : (k == "k") <;> rw [hk] at hl
+      · cases hl
+      · cases hl; decide
+    · simp only [b2, List.lookup_cons, List.lookup_nil] at hl
+      cases hk : (k == "k") <;> rw [hk] at hl
+      · cases hl
+      · cases hl; decide
+  have hv : q.Valid (fun _ => true) := fun e he => nomatch he
+  have h := H sem build hsb (fun _ => true) [[b1, b2]] q hg hwf hmd hv [b1, b2] b1 row
+    List.mem_cons_self List.mem_cons_self List.mem_cons_self rfl rfl
+  have e : query sem [mergeFile sem build [[b1, b2]]] q = [] := by rfl
+  rw [e] at h
+  cases h
+
+end MergeCE
 
 end BloomVerif
